@@ -43,6 +43,12 @@ type c09Prog struct {
 	// "" = the blocks do not communicate only through await (the parent writes
 	// what a block reads): determinism is not demanded, everything else is.
 	Expect string `json:"expect"`
+	// Prelude is module-level text in front of the route (constants whose initialiser spawns a block: that block is
+	// created directly in the module's root scope, while the loader goes on defining the items that follow).
+	// Such programs run on the interpreter only (compiled routes do not see module constants).
+	Prelude string `json:"prelude,omitempty"`
+	// Second is the body of a second program executed on the same VM value after Reset (engine "vm-reuse" only).
+	Second string `json:"second,omitempty"`
 }
 
 func c09Programs(thorough bool) []c09Prog {
@@ -96,10 +102,20 @@ func c09Programs(thorough bool) []c09Prog {
 		add("chain", "4", "$ f = async { > 1 }", "$ g = async { > (await f) + 1 }", "$ h = async { > (await g) + 2 }", "> await h")
 		add("nested-deep", "4", "$ f = async {\n    $ g = async {\n      $ h = async { > 1 }\n      > (await h) + 1\n    }\n    > (await g) + 2\n  }", "> await f")
 	}
+	// VM reuse: the first program returns the future of a block it never awaits; the VM is reset and runs Second
+	ps = append(ps,
+		c09Prog{Name: "vm-reuse/unawaited-block-then-second-program", Body: "$ k = \"A1\"\n  $ f = async { > k + \"-A2\" }\n  > f", Second: "$ k = \"B1\"\n  $ z = \"B2\"\n  > k + z + \"-B3\"", Expect: "[\"A1-A2\",\"B1B2-B3\"]"},
+		c09Prog{Name: "vm-reuse/block-with-loop-then-second-program", Body: "$ n = 3\n  $ f = async {\n    $ i = 0\n    $ t = 100\n    while i < n {\n      t = t + 7\n      i = i + 1\n    }\n    > t\n  }\n  > f", Second: "$ a = 55\n  $ b = 66\n  $ c = 77\n  > a + b + c", Expect: "[121,198]"},
+	)
+	// a block created in the module's root scope (a constant's initialiser) while the loader keeps defining constants
+	ps = append(ps,
+		c09Prog{Name: "root-scope/const-initialiser-block", Prelude: "const X = 1\nconst F = async {\n  > X + 1\n}\nconst Y = 2\nconst Z = 3\n", Body: "> await F", Expect: "2"},
+		c09Prog{Name: "root-scope/two-const-blocks", Prelude: "const X = 1\nconst F = async {\n  > X + 1\n}\nconst G = async {\n  > X + 2\n}\nconst Y = 2\n", Body: "$ a = await F\n  $ b = await G\n  > a + b", Expect: "5"},
+	)
 	return ps
 }
 
-func (p c09Prog) source() string { return "@ GET /t {\n  " + p.Body + "\n}\n" }
+func (p c09Prog) source() string { return p.Prelude + "@ GET /t {\n  " + p.Body + "\n}\n" }
 
 // ---- running one program under the scheduler ----------------------------------
 
@@ -151,6 +167,42 @@ func c09RunVM(code []byte, obs *c09Obs) {
 		obs.outcome = "error: " + err.Error()
 	} else {
 		obs.outcome = c09Canon(result)
+	}
+	vrt.WaitIdle()
+	obs.blocked = vrt.BlockedThreads()
+}
+
+// c09RunVMReuse: one VM value is used for two executions, as an embedder that pools VMs does (Reset exists for that):
+// the first program returns the future of a block it does not await, the VM is reset and runs a second program with
+// other constants, and only then is the block's result collected.  The block must still compute with its own program's
+// constants and locals.
+func c09RunVMReuse(codeA, codeB []byte, obs *c09Obs) {
+	m := vm.NewVM()
+	m.SetMaxSteps(100000)
+	m.SetLocal("input", vm.NullValue{})
+	ra, err := m.Execute(codeA)
+	if err != nil {
+		obs.outcome = "error: " + err.Error()
+		return
+	}
+	fv, ok := ra.(*vm.FutureValue)
+	if !ok {
+		obs.outcome = fmt.Sprintf("error: first program returned %T, not its future", ra)
+		return
+	}
+	m.Reset()
+	m.SetMaxSteps(100000)
+	m.SetLocal("input", vm.NullValue{})
+	rb, err := m.Execute(codeB)
+	if err != nil {
+		obs.outcome = "error: second program: " + err.Error()
+		return
+	}
+	vrt.Recv(fv.Done)
+	if fv.Error != nil {
+		obs.outcome = "error: block: " + fv.Error.Error()
+	} else {
+		obs.outcome = c09Canon([]interface{}{fv.Result, rb})
 	}
 	vrt.WaitIdle()
 	obs.blocked = vrt.BlockedThreads()
@@ -222,6 +274,7 @@ type c09Compiled struct {
 	route *ast.Route
 	code  []byte
 	cerr  error
+	codeB []byte // second program of a VM-reuse pair
 }
 
 func c09Compile(p c09Prog) (*c09Compiled, error) {
@@ -239,13 +292,28 @@ func c09Compile(p c09Prog) (*c09Compiled, error) {
 		return nil, errors.New("no route")
 	}
 	c.code, c.cerr = compiler.NewCompilerWithOptLevel(compiler.OptBasic).CompileRoute(c.route)
+	if p.Second != "" {
+		mod2, err := parseSource("@ GET /t {\n  " + p.Second + "\n}\n")
+		if err != nil {
+			return nil, err
+		}
+		for _, it := range mod2.Items {
+			if r, ok := it.(*ast.Route); ok {
+				if c.codeB, err = compiler.NewCompilerWithOptLevel(compiler.OptBasic).CompileRoute(r); err != nil {
+					return nil, err
+				}
+			}
+		}
+	}
 	return c, nil
 }
 
 func c09Body(c *c09Compiled, engine string, obs *c09Obs) func() {
 	return func() {
 		*obs = c09Obs{}
-		if engine == "interp" {
+		if engine == "vm-reuse" {
+			c09RunVMReuse(c.code, c.codeB, obs)
+		} else if engine == "interp" {
 			c09RunInterp(c.mod, c.route, obs)
 		} else {
 			c09RunVM(c.code, obs)
@@ -262,7 +330,11 @@ func c09ProgPart(p vk.Params, res *vk.Result, bound int) {
 			// the generator only emits programs the parser accepts: anything else is an engine error
 			panic(fmt.Sprintf("c09: program %s does not parse: %v\n%s", pr.Name, err, pr.source()))
 		}
-		for _, engine := range []string{"interp", "vm"} {
+		engines := []string{"interp", "vm"}
+		if pr.Second != "" {
+			engines = []string{"vm-reuse"}
+		}
+		for _, engine := range engines {
 			item++
 			if !p.Mine(item) {
 				continue
@@ -270,6 +342,9 @@ func c09ProgPart(p vk.Params, res *vk.Result, bound int) {
 			if p.Expired() {
 				res.Exhaustive = false
 				res.Note("budget exhausted before program %s/%s", pr.Name, engine)
+				continue
+			}
+			if engine == "vm" && pr.Prelude != "" {
 				continue
 			}
 			if engine == "vm" && c.cerr != nil {
@@ -353,6 +428,7 @@ type c09Scen struct {
 	Early    int         `json:"early"`    // number of inputs settled before the combinator is built
 	Settles  []c09Settle `json:"settles"`  // plain future: settle operations issued by separate threads
 	Awaiters int         `json:"awaiters"` // plain future: concurrent awaiters (a late awaiter is always added)
+	Build    string      `json:"build,omitempty"` // combinators: "" = built before the settle threads start, "concurrent" = built by a thread racing them
 }
 
 func c09Scens(thorough bool) []c09Scen {
@@ -417,6 +493,14 @@ func c09Scens(thorough bool) []c09Scen {
 					}
 					out = append(out, c09Scen{Name: fmt.Sprintf("%searly%d", name, early), Comb: comb, Inputs: ins, Early: early})
 				}
+				// the combinator registers with its inputs while they are being settled by other threads
+				if n == 2 || thorough {
+					name := comb + "/"
+					for _, s := range ins {
+						name += s.Kind[:3] + "-"
+					}
+					out = append(out, c09Scen{Name: name + "concurrent-build", Comb: comb, Inputs: ins, Build: "concurrent"})
+				}
 			}
 		}
 	}
@@ -435,6 +519,7 @@ type c09FutObs struct {
 	clock   int
 	start   []int // per input: logical time at which its settle operation was invoked (0 = never)
 	end     []int // per input: logical time at which its settle operation returned
+	built   int   // logical time at which the combinator constructor returned (0: before any concurrent settle)
 }
 
 func c09ErrStr(e error) string {
@@ -508,15 +593,26 @@ func c09FutBody(sc c09Scen, o *c09FutObs) func() {
 		for i := 0; i < sc.Early && i < n; i++ {
 			settle(i)
 		}
-		switch sc.Comb {
-		case "all":
-			o.combF = interpreter.All(o.inputs...)
-		case "race":
-			o.combF = interpreter.Race(o.inputs...)
-		case "any":
-			o.combF = interpreter.Any(o.inputs...)
+		build := func() {
+			var f *interpreter.Future
+			switch sc.Comb {
+			case "all":
+				f = interpreter.All(o.inputs...)
+			case "race":
+				f = interpreter.Race(o.inputs...)
+			case "any":
+				f = interpreter.Any(o.inputs...)
+			}
+			o.clock++
+			o.combF, o.built = f, o.clock
 		}
 		var fs []func()
+		if sc.Build == "concurrent" {
+			fs = append(fs, build)
+		} else {
+			build()
+			o.built = 0
+		}
 		for i := sc.Early; i < n; i++ {
 			i := i
 			if sc.Inputs[i].Kind == "never" {
@@ -622,7 +718,7 @@ func c09FutJudge(x *vrt.Exec, o *c09FutObs) (key, desc string) {
 				continue
 			}
 			for i, si := range sc.Inputs {
-				if i != w && si.Kind != "never" && o.end[i] != 0 && o.end[i] < o.start[w] {
+				if i != w && si.Kind != "never" && o.end[i] != 0 && o.end[i] < o.start[w] && o.start[w] > o.built {
 					return "race/not-first-settled", fmt.Sprintf("Race over inputs %v gave %v, the outcome of input %d, although input %d had settled (t=%d) before input %d's settle operation was even invoked (t=%d)",
 						sc.Inputs, got, w, i, o.end[i], w, o.start[w])
 				}
@@ -643,7 +739,7 @@ func c09FutJudge(x *vrt.Exec, o *c09FutObs) (key, desc string) {
 					continue
 				}
 				for i, si := range sc.Inputs {
-					if i != w && si.Kind == "resolve" && o.end[i] != 0 && o.end[i] < o.start[w] {
+					if i != w && si.Kind == "resolve" && o.end[i] != 0 && o.end[i] < o.start[w] && o.start[w] > o.built {
 						return "any/not-first-success", fmt.Sprintf("Any over inputs %v gave %v, the value of input %d, although input %d had succeeded (t=%d) before input %d's resolve was even invoked (t=%d)",
 							sc.Inputs, got, w, i, o.end[i], w, o.start[w])
 					}
@@ -691,6 +787,12 @@ func c09FutJudge(x *vrt.Exec, o *c09FutObs) (key, desc string) {
 
 func c09ScenBound(sc c09Scen) int {
 	n := len(sc.Inputs)
+	if sc.Build == "concurrent" { // builder + n settlers (+ the combinator's own helper thread)
+		if n > 2 {
+			return 0
+		}
+		return 2
+	}
 	switch sc.Comb {
 	case "":
 		if len(sc.Settles)+sc.Awaiters > 3 {
